@@ -173,6 +173,24 @@ Definition failing_line_b (code : str) (lineno avail : Z) (guides : bool) (out :
       end
   end.
 
+(* what Traceback._render_stack must show for one frame, given the file content AT RENDER TIME
+   (None = unreadable): nothing for "<...>" pseudo files, the error text for an unreadable file, else a
+   code block in which -- when line `lineno` exists in that content and is not blank -- exactly that
+   line carries the pointer under its number.  kind: 0 code block, 1 header only, 2 error text *)
+Definition starts_lt_b (s : str) : bool := match s with c :: _ => c =? 60 | [] => false end.
+Definition block_ok_b (file : str) (content : option str) (lineno avail : Z) (guides : bool)
+           (kind : Z) (lines : list str) : bool :=
+  if starts_lt_b file then kind =? 1
+  else match content with
+       | None => kind =? 2
+       | Some code =>
+           (kind =? 0) &&
+           match nth_error (source_lines (tb_opts lineno 0 false true false) code) (Z.to_nat (lineno - 1)) with
+           | Some e => blank e || negb (1 <=? lineno) || failing_line_b code lineno avail guides lines
+           | None => true
+           end
+       end.
+
 (* LexOk on one sample: the token texts concatenate to the lexer's normalisation of the input *)
 Definition lex_ok_b (lo : lexopts) (code : str) (toks : list str) : bool :=
   str_eqb (concat toks) (lex_norm lo code).
